@@ -13,7 +13,7 @@ RULE = ("case = well-formed interleaved label sequence of 2-4 tasks (started by 
         "non-trivial = >=2 tasks with overlapping lifetimes each entering a block that supplies the same type (different "
         "values) while the other is alive; distinct = by case text")
 
-C = "ctor=110000 "
+C = "ctor=1100001 "
 
 
 def model_input(case: str, out: str) -> str:
